@@ -69,6 +69,44 @@ func init() {
 		intrinsics[n] = freshStr
 		intrinsicDoc[n] = "returns some string; no effect"
 	}
+	// sort.Search(n, f): for a (loop-free, effect-free) predicate closure the
+	// result r satisfies 0 <= r <= n, f(r) when r < n, and !f(r-1) when r > 0
+	// (what binary search guarantees for ANY predicate; with a monotone predicate
+	// this makes r the smallest index with f true). The closure body is the real
+	// code, executed symbolically at r and at r-1.
+	intrinsics["sort.Search"] = func(fr *Frame, st *State, args []*Val, pos token.Pos) []*Val {
+		x := fr.x
+		n := args[0].T()
+		r := x.vc.fresh("search", sInt)
+		x.vc.assume(tImp(st.pc, tAnd(tCmp("<=", "0", r), tCmp("<=", r, n))))
+		res := []*Val{mkInt(types.Typ[types.Int], r)}
+		cl, ok := args[1].X.(*Closure)
+		if !ok || cl.fn.Blocks == nil || hasLoop(cl.fn) {
+			x.vc.diag("%s: sort.Search with a predicate that is not a loop-free closure: only 0 <= r <= n is known", fr.fn.String())
+			return res
+		}
+		probe := func(guard, at string, want bool) {
+			s2 := st.clone()
+			s2.pc = x.vc.def("pc", sBool, tAnd(st.pc, guard))
+			saved := x.vc.pcNow
+			x.vc.pcNow = s2.pc
+			x.noObl++
+			vals := fr.inlineCall(s2, cl.fn, cl.bindings, []*Val{mkInt(types.Typ[types.Int], at)}, pos)
+			x.noObl--
+			x.vc.pcNow = saved
+			if len(vals) == 1 && s2.pc != "false" {
+				t := vals[0].T()
+				if !want {
+					t = tNot(t)
+				}
+				x.vc.assume(tImp(s2.pc, t))
+			}
+		}
+		probe(tCmp("<", r, n), r, true)
+		probe(tCmp(">", r, "0"), tSub(r, "1"), false)
+		return res
+	}
+	intrinsicDoc["sort.Search"] = "binary search: 0 <= r <= n, f(r) if r < n, !f(r-1) if r > 0 (the predicate closure is executed symbolically at both points; it must be loop-free and effect-free)"
 	noop := func(fr *Frame, st *State, args []*Val, pos token.Pos) []*Val { return nil }
 	for _, n := range []string{modPath + "/internal/debug.Log", "(*sync.Mutex).Lock", "(*sync.Mutex).Unlock", "(*sync.RWMutex).Lock",
 		"(*sync.RWMutex).Unlock", "(*sync.RWMutex).RLock", "(*sync.RWMutex).RUnlock", "runtime.GC", "(*sync.WaitGroup).Add", "(*sync.WaitGroup).Done"} {
